@@ -40,6 +40,8 @@ def config_fields(facts, tname, nfields):
         td = facts.ty(fn["locals"][1][0])
         if not (td.get("k") in ("ref", "ptr") and td.get("mut")):
             continue
+        if norm_name(facts.ty(td["to"]).get("path", "")) != tname:
+            continue        # an associated function whose first parameter is `&mut` something else (`load_key(ctx: &mut Inner, ..)`)
         for b in fn["blocks"]:
             for st in b["s"]:
                 if st[0] == "A" and st[1][0] == 1 and len(st[1]) >= 3 and st[1][1] == "*" and st[1][2] != "*" and st[1][2][0] == "f":
